@@ -110,6 +110,8 @@ def filters_grid():
         "b>=2": lambda d: d.b >= 2, "(a>1)&(b<4)": lambda d: (d.a > 1) & (d.b < 4), "(a>3)|(b==0)": lambda d: (d.a > 3) | (d.b == 0),
         "((a>1)&(b<4))|((a>1)&(g==1))": lambda d: ((d.a > 1) & (d.b < 4)) | ((d.a > 1) & (d.g == 1)),
         "(a!=3)&(b>1)": lambda d: (d.a != 3) & (d.b > 1), "(a<2)|(a!=4)": lambda d: (d.a < 2) | (d.a != 4),
+        "(a>1)&(a<b)": lambda d: (d.a > 1) & (d.a < d.b), "(b>=2)&s.isin": lambda d: (d.b >= 2) & d.s.isin(["x", "y"]), "(b>1)&(a!=3)": lambda d: (d.b > 1) & (d.a != 3),
+        "((a>1)&(b!=2))|(g==1)": lambda d: ((d.a > 1) & (d.b != 2)) | (d.g == 1), "(a>=1)&a.isna|b": lambda d: ((d.a >= 1) & d.a.isna()) | (d.b == 0),
         "3<a": lambda d: 3 < d.a, "a.isna": lambda d: d.a.isna(), "(a>1)&a.notnull": lambda d: (d.a > 1) & d.a.notnull(), "s==x": lambda d: d.s == "x", "s!=x": lambda d: d.s != "x",
     }
     return P
@@ -192,7 +194,9 @@ def e2e(run, rt, tmp, quick):
                     # filters, alone and combined with user filters and projections
                     items = list(P.items())
                     if quick:
-                        items = items[: 9] + items[-3:] if nfiles == 4 else items[::2]
+                        mixed = [it for it in items if any(t in it[0] for t in ("!=", "isin", "a<b", "isna", "notnull")) and "&" in it[0]]
+                        items = (items[: 9] + items[-3:] if nfiles == 4 else items[::2])
+                        items = items + [it for it in mixed if it not in items]
                     for pname, pf in items:
                         for ufilter in (None, [("b", "<=", 4)]):
                             for proj in (None, ["b", "a"]):
@@ -234,6 +238,37 @@ def e2e(run, rt, tmp, quick):
                 chk = try_(lambda: rt.dx.read_parquet(path).compute())
                 if chk[0] == "raise" or len(chk[1]) != len(pdf):
                     run.violation("refused overwrite damaged the dataset (%s)" % dsname, {"kind": "overwrite", "dataset": dsname})
+    # files whose index ranges overlap: divisions must not be reported (or must be truthful), loc must find every row
+    from e2e import _Pieces, _piece, node_truth
+    pieces = [pd.DataFrame({"v": range(10)}, index=pd.Index(range(0, 10), name="i")), pd.DataFrame({"v": range(10, 21)}, index=pd.Index(range(5, 16), name="i")),
+              pd.DataFrame({"v": range(21, 26)}, index=pd.Index(range(15, 20), name="i"))]
+    allp = pd.concat(pieces)
+    path = os.path.join(tmp, "overlap")
+    rt.dx.from_map(_piece, [0, 1, 2], args=[_Pieces(pieces)], meta=pieces[0].iloc[:0]).to_parquet(path, overwrite=True)
+    for kw in ({}, {"filesystem": "arrow"}):
+        d = rt.dx.read_parquet(path, calculate_divisions=True, **kw)
+        n += 1
+        run.count(("overlap-stats", str(kw)))
+        for v in node_truth("overlapping files %s" % (kw or "fsspec"), d.optimize(fuse=False).expr, {"C06"}, "optimized", lowered=True):
+            run.violation(v["what"], {"kind": "stats-overlap", "reader": str(kw)})
+        got = try_(lambda: d.loc[5:9].compute())
+        if got[0] == "raise" or sorted(got[1].v.tolist()) != sorted(allp[(allp.index >= 5) & (allp.index <= 9)].v.tolist()):
+            run.violation("loc[5:9] on a dataset with overlapping file ranges (%s) returns %s, expected %s" % (kw or "fsspec", got[1].v.tolist() if got[0] == "ok" else got[1], sorted(allp[(allp.index >= 5) & (allp.index <= 9)].v.tolist())),
+                          {"kind": "stats-overlap", "reader": str(kw)})
+    # lengths of partition-selected, column-selected reads
+    pl = pd.DataFrame({"a": range(43), "b": [i % 5 for i in range(43)], "c": [float(i) for i in range(43)]})
+    path = os.path.join(tmp, "lens")
+    rt.dx.from_pandas(pl, npartitions=4).to_parquet(path, overwrite=True)
+    for kw in ({}, {"filesystem": "arrow"}, {"calculate_divisions": True}, {"filesystem": "arrow", "calculate_divisions": True}):
+        r = rt.dx.read_parquet(path, **kw)
+        for sel in ([1, 2], [0], [3, 0], [2, 2], [0, 1, 2, 3]):
+            for cols in (None, ["a"], "b"):
+                n += 1
+                run.count(("sel-len", str(kw), str(sel), str(cols)))
+                q = r.partitions[sel] if cols is None else r.partitions[sel][cols]
+                a, b = try_(lambda: len(q)), try_(lambda: len(q.compute()))
+                if a[0] == "raise" or b[0] == "raise" or a[1] != b[1]:
+                    run.violation("len(read_parquet(%s).partitions[%s][%s]) = %s but %s rows are computed" % (kw, sel, cols, a[1], b[1]), {"kind": "sel-len", "reader": str(kw), "sel": sel, "cols": cols})
     # unsorted file statistics: divisions must not be reported (or must be truthful)
     import numpy as np
     un = pd.DataFrame({"v": range(18)}, index=pd.Index([12, 13, 14, 15, 16, 17, 0, 1, 2, 3, 4, 5, 6, 7, 8, 9, 10, 11], name="i"))
